@@ -1,6 +1,7 @@
 package props
 
 import (
+	"unicode"
 	"encoding/json"
 	"fmt"
 	"math/rand"
@@ -58,8 +59,17 @@ func c19Gen(r *rand.Rand, tier string, idx int) any {
 		n := 1 + r.Intn(12)
 		var s []int
 		for j := 0; j < n; j++ {
-			if r.Intn(5) == 0 {
-				s = append(s, int(pick(r, []rune("世é€αЖ🎉ß"))))
+			if x := r.Intn(10); x == 0 {
+				// any character a terminal can send: also those above U+00FF that Go does not
+				// call printable (ideographic space, zero-width joiner of emoji sequences, BOM,
+				// line/paragraph separators, private use, unassigned, the last code point)
+				s = append(s, int(pick(r, []rune("世é€αЖ🎉ß\u3000\u200b\u200d\ufeff\u2028\u2029\ue000\ufff9\U0001d173\U000e0001\U0010ffff\u0378\u0300\u212a"))))
+			} else if x == 1 {
+				v := 0x100 + r.Intn(0x10ffff-0x100+1)
+				if v >= 0xd800 && v <= 0xdfff {
+					v = 0x3000
+				}
+				s = append(s, v)
 			} else {
 				s = append(s, r.Intn(256))
 			}
@@ -95,6 +105,8 @@ func runeClassSig(s string) string {
 			cls["0xff"] = true
 		case r <= 0xff:
 			cls["0xa0-0xfe"] = true
+		case !unicode.IsPrint(r):
+			cls["unicode-not-printable"] = true
 		default:
 			cls["unicode"] = true
 		}
